@@ -323,12 +323,16 @@ pub enum CtlStep {
     OpenWindow { dev: usize, secs: u16 },
     /// RevokeCommissioning over our CASE session
     Revoke { dev: usize },
+    /// Only establish a PASE session with the given passcode (an ArmFailSafe probe is not sent)
+    PaseAttempt { dev: usize, passcode: u32 },
     /// Forget the CASE sessions we hold (the next operation establishes a fresh one, trying
     /// resumption first)
     DropSessions,
     ReadOnOff { dev: usize },
     Toggle { dev: usize },
     Sleep { ms: u32 },
+    /// Sleep until the given (controller-local) time since start
+    SleepUntil { ms: u32 },
 }
 
 pub struct ControllerCtx {
@@ -344,6 +348,14 @@ pub struct ControllerCtx {
     pub script: Vec<CtlStep>,
     pub continue_on_error: bool,
     pub done: Rc<Cell<bool>>,
+}
+
+struct DoneOnDrop<'a>(&'a Cell<bool>);
+
+impl Drop for DoneOnDrop<'_> {
+    fn drop(&mut self) {
+        self.0.set(true);
+    }
 }
 
 pub fn device_node_id(dev: usize) -> u64 {
@@ -410,6 +422,8 @@ pub fn controller_root(ctx: ControllerCtx, shared: Rc<NodeShared>) -> RootFut {
             let crypto = &crypto;
             let ctx = &ctx;
             tasks.push(TaskDef::once("script", async move {
+                // Also when the script is cancelled at some await point
+                let _done = DoneOnDrop(&ctx.done);
                 let r = controller_script(matter, crypto, ctx).await;
                 log_ev(
                     &ctx.log,
@@ -438,24 +452,58 @@ async fn controller_script<C: Crypto>(matter: &Matter<'_>, crypto: &C, ctx: &Con
     const ADMIN_VENDOR_ID: u16 = 0xFFF1;
 
     // ---- The controller's own CA and operational identity
-    let mut rcac_buf = [0u8; MAX_CERT_TLV_AND_ASN1_LEN];
-    let mut rcac_gen = RcacGenerator::new(&mut rcac_buf);
-    let (rcac_priv, rcac) = rcac_gen.generate(crypto, ctx.fabric_id, VALID_FOREVER)?;
-
-    let mut icac_buf = [0u8; MAX_CERT_TLV_AND_ASN1_LEN];
-    let mut icac_gen = IcacGenerator::new(&mut icac_buf);
-    let (icac_priv, icac) = icac_gen.generate(crypto, rcac_priv.reference(), rcac, VALID_FOREVER)?;
+    let note = |what: &str, e: &Error| {
+        log_ev(&ctx.log, ctx.node, ctx.incarnation, FullKind::Note(format!("controller setup failed at {what}: {:?}", e.code())));
+    };
+    // `RcacGenerator` / `IcacGenerator` draw a random 8-byte serial number and reject it when it
+    // starts with a redundant zero byte (1 in 512 draws; an rs-matter quirk outside the
+    // properties checked here): simply draw again
+    let (rcac_priv, rcac_vec) = {
+        let mut tries = 0;
+        loop {
+            let mut buf = [0u8; MAX_CERT_TLV_AND_ASN1_LEN];
+            let mut gen = RcacGenerator::new(&mut buf);
+            match gen.generate(crypto, ctx.fabric_id, VALID_FOREVER) {
+                Ok((k, c)) => break (k, c.to_vec()),
+                Err(e) if tries < 8 => {
+                    tries += 1;
+                    note("rcac (retrying)", &e);
+                }
+                Err(e) => return Err(e),
+            }
+        }
+    };
+    let rcac: &[u8] = &rcac_vec;
+    let (icac_priv, icac_vec) = {
+        let mut tries = 0;
+        loop {
+            let mut buf = [0u8; MAX_CERT_TLV_AND_ASN1_LEN];
+            let mut gen = IcacGenerator::new(&mut buf);
+            match gen.generate(crypto, rcac_priv.reference(), rcac, VALID_FOREVER) {
+                Ok((k, c)) => break (k, c.to_vec()),
+                Err(e) if tries < 8 => {
+                    tries += 1;
+                    note("icac (retrying)", &e);
+                }
+                Err(e) => return Err(e),
+            }
+        }
+    };
+    let icac: &[u8] = &icac_vec;
     drop(rcac_priv);
 
     let secret_key = crypto.generate_secret_key()?;
     let mut csr_buf = [0u8; 256];
-    let csr = secret_key.csr(&mut csr_buf)?;
+    let csr = secret_key.csr(&mut csr_buf).inspect_err(|e| note("csr", e))?;
     let mut secret_key_canon = CanonPkcSecretKey::new();
     secret_key.write_canon(&mut secret_key_canon)?;
 
     let mut noc_buf = [0u8; MAX_CERT_TLV_AND_ASN1_LEN];
-    let mut noc_generator = NocGenerator::create(icac_priv.reference(), rcac, icac, &mut noc_buf)?;
-    let noc = noc_generator.generate(crypto, csr, ctx.node_id, &[], VALID_FOREVER)?;
+    let mut noc_generator =
+        NocGenerator::create(icac_priv.reference(), rcac, icac, &mut noc_buf).inspect_err(|e| note("noc generator", e))?;
+    let noc = noc_generator
+        .generate(crypto, csr, ctx.node_id, &[], VALID_FOREVER)
+        .inspect_err(|e| note("noc", e))?;
 
     let mut ipk = CanonAeadKey::new();
     crypto.rand()?.fill_bytes(ipk.access_mut());
@@ -488,9 +536,11 @@ async fn controller_script<C: Crypto>(matter: &Matter<'_>, crypto: &C, ctx: &Con
             CtlStep::OpenWindow { .. } => "open_window",
             CtlStep::Revoke { .. } => "revoke",
             CtlStep::DropSessions => "drop_sessions",
+            CtlStep::PaseAttempt { .. } => "pase_attempt",
             CtlStep::ReadOnOff { .. } => "read_onoff",
             CtlStep::Toggle { .. } => "toggle",
             CtlStep::Sleep { .. } => "sleep",
+            CtlStep::SleepUntil { .. } => "sleep",
         };
         log_ev(&ctx.log, ctx.node, ctx.incarnation, FullKind::Step { name, result: None });
         let r: Result<(), Error> = match step {
@@ -608,6 +658,14 @@ async fn controller_script<C: Crypto>(matter: &Matter<'_>, crypto: &C, ctx: &Con
                 }
                 .await
             }
+            CtlStep::PaseAttempt { dev, passcode } => {
+                async {
+                    let exchange = Exchange::initiate_pase(matter, crypto, net::node_addr(*dev), *passcode).await?;
+                    drop(exchange);
+                    Ok(())
+                }
+                .await
+            }
             CtlStep::DropSessions => {
                 matter.with_state(|state| {
                     let _ = state;
@@ -636,6 +694,10 @@ async fn controller_script<C: Crypto>(matter: &Matter<'_>, crypto: &C, ctx: &Con
             }
             CtlStep::Sleep { ms } => {
                 Timer::after(Duration::from_millis(*ms as u64)).await;
+                Ok(())
+            }
+            CtlStep::SleepUntil { ms } => {
+                Timer::at(embassy_time::Instant::from_millis(*ms as u64)).await;
                 Ok(())
             }
         };
